@@ -3,6 +3,8 @@ import os, sys
 sys.path.insert(0, os.path.join(os.path.dirname(__file__), '..', '..', 'tools'))
 import vlib
 from vlib import Job
+sys.path.insert(0, os.path.join(os.path.dirname(__file__), '..', 'bx'))
+import bxcfg
 
 PID = 'C13'
 HERE = os.path.dirname(os.path.abspath(__file__))
@@ -67,6 +69,9 @@ EV_UNWIND = 12
 LOOP_CONTRACT_APPLIED = {'add_union': True}
 
 
+BX_DROPPED = {}
+
+
 def jobs(tier):
     src = [os.path.join(HERE, 'harness.c'), os.path.join(OUT, 'layout_bodies.c')]
     inc = [OUT, os.path.join(vlib.VERIF, 'props'), HERE]
@@ -98,12 +103,14 @@ def jobs(tier):
     J.append(Job('bounded_lifecycle_merge', fsrc, 'hb_life_merge', includes=inc, kind='bounded', unwind=EV_UNWIND, timeout=300,
                  cbmc_args=['--object-bits', '10'], note='op_merge with at most 3 branches'))
     add('control', 'h_control', None, defines=['VERIF_CONTROL'], kind='control', expect='fail')
+    J += bxcfg.jobs(vlib, Job, OUT, ['ifelse'], control=False)
     return J
 
 
 LEVEL = 'proof'
 TRUSTED = ['tools/cxx2c.py lowering (no native fidelity check for this unit: three loop-free functions, text compared by eye in DESIGN.md)']
 ASSUMPTIONS = [
+    'build_exec (build.cc): only the cases IFELSE ALT SCOPE CAPTURE CLOSE_STAR CLOSE_PLUS OR CAT of its switch are lowered (cxx2c keep_cases; the other cases are dropped and reaching one is a failed obligation); the recursive call is an ASSUMED contract with a ghost call log (records tree, layout, scope, upstream; never shrinks the layout -- re-established for the lowered cases), operator constructors that take a layout reserve an arbitrary non-empty range at its end (contract of layout::reserve, C13), layout::add_union by its C13 contract (props/bx/bx_model.h)',
     'alignment is a power of two (alignof of a C++ type always is) and sizes keep the area below 2^48 bytes',
     'add_union: std::vector<layout> by the generic (data,len,cap) model props/vecgen.h; contract states the lower bounds (never shrinks, at least as large as every alternative), not that it is exactly the maximum',
     'parse_esc_num: precondition = the scanner rules that call it (\\[0-3][0-7]?[0-7]? and \\x HEX HEX); strtoul by props/c13/libc_model.h (assumed contract on glibc); the operand of throw (message construction) is dropped',
@@ -114,10 +121,12 @@ EXPLANATION = 'Only the layout arithmetic that places states in the shared state
 
 
 def spec_files():
-    return [os.path.join(HERE, 'spec.h'), os.path.join(HERE, 'harness.c')]
+    return [os.path.join(vlib.VERIF, 'props', 'bx', 'bx_harness.c'), os.path.join(vlib.VERIF, 'props', 'bx', 'bx_model.h')] + [os.path.join(HERE, 'spec.h'), os.path.join(HERE, 'harness.c')]
 
 
 def prepare(tier):
+    global BX_DROPPED
+    bxw, BX_DROPPED = bxcfg.prepare(vlib, OUT)
     lw = vlib.extract('layout', 'libzwerg/layout.cc', CFG, ROOTS, OUT)
     LOOP_CONTRACT_APPLIED['add_union'] = 'layout_add_union#1' in lw.report.get('loop_contracts_applied', [])
     note = 'add_union: the loop the loop contract was written for is gone (function rewritten); the unbounded add_union obligation was NOT checked in this run, only the bounded one (<= 3 alternatives)'
@@ -127,6 +136,33 @@ def prepare(tier):
     lx = vlib.extract('lex', os.path.join(gen, 'lexer.cc'), LEX_CFG, LEX_ROOTS, OUT, extra_flags=['-I' + gen])
     lf = vlib.extract('life', 'libzwerg/op.cc', LIFE_CFG, LIFE_ROOTS, OUT)
     lx.report['functions'] += lf.report['functions']
-    return {'units': ['libzwerg/layout.cc', 'libzwerg/lexer.ll (through flex, regenerated on every run)'],
+    return {'build_exec_cases_lowered': BX_DROPPED.get('kept'), 'build_exec_cases_dropped_by_extraction': BX_DROPPED.get('dropped'), 'build_exec_functions': bxw.report['functions'], 'units': ['libzwerg/layout.cc', 'libzwerg/lexer.ll (through flex, regenerated on every run)'],
             'functions': lw.report['functions'] + lx.report['functions'],
             'dropped': lx.report.get('throws', [])}
+
+
+IFELSE_QUERIES = [('if ?(0 == 1) then "a" else (1, 2, 3)', '<1> <2> <3>'),
+                  ('if ?(0 == 1) then "a" else if ?(0 == 1) then "b" else "c"', '<c>'),
+                  ('if ?(1 == 1) then if ?(0 == 1) then "b" else "c" else "a"', '<c>'),
+                  ('[if ?(0 == 1) then "a" else if ?(0 == 1) then "b" else (1 (|A| A 2 (|B| A B add)))] length', '<1>'),
+                  ('(1, 2) (if ?(0 == 1) then "a" else if ?(0 == 1) then "b" else (3, 4)) (5, 6)', '<1|3|5> <1|3|6> <1|4|5> <1|4|6> <2|3|5> <2|3|6> <2|4|5> <2|4|6>'),
+                  ('if ?((1, 2) (3, 4) ?eq) then "a" else "b"', '<b>')]
+
+
+def replay(r):
+    """if/else job only: the verifier's counterexample is a set of state sizes of the abstract arms, so it is not replayed
+    literally; if/else queries whose arms differ in footprint are run on the real library under valgrind (memcheck)."""
+    if 'build_exec_ifelse' not in r.job.name:
+        return None
+    res = vlib.zw_queries([q for q, e in IFELSE_QUERIES], OUT)
+    exe = os.path.join(OUT, 'zwq')
+    bad = []
+    for (q, e), (cnt, txt) in zip(IFELSE_QUERIES, res):
+        if cnt is None or (txt or '').strip() != e:
+            bad.append('`%s` yields %s, expected %s' % (q, txt if cnt is not None else 'an error/crash', e))
+            continue
+        rc, out, err, w = vlib.run(['valgrind', '-q', '--error-exitcode=99', exe, q], timeout=300)
+        if rc == 99:
+            first = [l for l in err.split('\n') if 'Invalid' in l or 'uninitialised' in l][:1]
+            bad.append('`%s`: valgrind reports %s' % (q, (first[0].split('== ')[-1] if first else 'a memory error')))
+    return {'reproduced': bool(bad), 'violations_on_real_library': bad[:6], 'queries': len(IFELSE_QUERIES)}
